@@ -13,7 +13,37 @@ import cases as C
 import docx as D
 from common import run_driver, VERIF, REPO
 
-PROFILE = dict(style_map=0.6, p_dangling_style=0.3, p_pstyle=0.6, p_rstyle=0.4, p_unknown=0.15, p_image=0.1, p_note=0.15, separators=True, p_embedded_map=0.1, max_blocks=5)
+PROFILE = dict(style_map=0.5, p_dangling_style=0.3, p_pstyle=0.6, p_rstyle=0.4, p_unknown=0.15, p_image=0.25, p_note=0.15, separators=True, p_embedded_map=0.35, max_blocks=5,
+               p_hyperlink=0.2, p_bookmark=0.15, p_comment=0.1, p_numbering=0.3)
+
+
+def variants(rng, base, pool):
+    """the same package under other options, and sibling packages that share a part with it: state that leaks between
+    calls usually travels through something the two calls have in common (a cache key, a shared default, a singleton)"""
+    out = []
+    o = dict(base["options"])
+    flip = rng.choice(["includeDefault", "includeEmbedded", "styleMap", "idPrefix", "ignoreEmpty"])
+    if flip == "includeDefault":
+        o["includeDefault"] = not o.get("includeDefault", True)
+    elif flip == "includeEmbedded":
+        o["includeEmbedded"] = not o.get("includeEmbedded", True)
+    elif flip == "styleMap":
+        if "styleMap" in o:
+            del o["styleMap"]
+        else:
+            o["styleMap"] = "p => div.v:fresh\nb => b"
+    elif flip == "idPrefix":
+        o["idPrefix"] = (o.get("idPrefix") or "") + "v-"
+    else:
+        o["ignoreEmpty"] = not o.get("ignoreEmpty", True)
+    out.append({"parts": base["parts"], "options": o})
+    # a sibling: another package carrying THIS package's embedded style map (same text, other document)
+    emb = [p for p in base["parts"] if p["name"] == "mammoth/style-map"]
+    if emb and pool:
+        other = rng.choice(pool)
+        parts = [p for p in other["parts"] if p["name"] != "mammoth/style-map"] + emb
+        out.append({"parts": parts, "options": dict(other["options"], includeDefault=not base["options"].get("includeDefault", True))})
+    return out
 
 
 def result_of(data, opts):
@@ -32,7 +62,12 @@ def run(out, tier, seed, model_ok):
     pool = []
     for i in range(ndocs):
         g, parts, opts = C.api_case(seed * 1000003 + i, PROFILE)
-        pool.append({"parts": parts, "options": opts, "data": D.build_docx(parts)})
+        opts.pop("format", None)
+        pool.append({"parts": parts, "options": opts})
+    for base in list(pool):
+        pool.extend(variants(rng, base, pool))
+    for p in pool:
+        p["data"] = D.build_docx(p["parts"])
     models = run_driver([{"op": "api", "parts": p["parts"], "options": p["options"]} for p in pool]) if model_ok else [None] * len(pool)
     for p, m in zip(pool, models):
         p["model"] = None if (m is None or "error" in m) else {"value": m.get("value"), "messages": m.get("messages"), "err": m.get("err")}
